@@ -41,6 +41,61 @@ func minaMsg(b []byte) *mina.ROInput {
 	return m
 }
 
+// minaEncodingBody: the documented message encoding ("a string is appended as bits, MSB first per byte") is what makes
+// distinct messages distinct inputs of the signature: for every string of a small alphabet that includes multi-byte
+// UTF-8 characters whose code points share their low byte, ROInput.Bits() must be exactly the MSB-first bits of the
+// string's BYTES, different strings give different bit strings, and a signature on one does not verify for another.
+func minaEncodingBody(x *engine.X) {
+	msgs := []string{"", "a", "pay 10\u20ac to alice", "pay 10\u00ac to alice", "\u00e9", "e\u0301", "\xff\xfe", "\u0100", "\x01"} // no trailing-zero variants: ROInput pads with zero bits, so strings that differ only in trailing zero bits are the same message by format
+	i := x.Choose("msg", len(msgs))
+	m := new(mina.ROInput).Init()
+	m.AddString(msgs[i])
+	got := m.Bits()
+	var want []bool
+	for _, b := range []byte(msgs[i]) {
+		for k := 7; k >= 0; k-- {
+			want = append(want, (b>>uint(k))&1 == 1)
+		}
+	}
+	x.Case(fmt.Sprintf("mina/encoding/%q", msgs[i]))
+	if len(got) != len(want) {
+		x.Failf("mina/roinput/string-bits", "AddString(%q): %d bits, the UTF-8 bytes have %d", msgs[i], len(got), len(want))
+		return
+	}
+	for k := range got {
+		if got[k] != want[k] {
+			x.Failf("mina/roinput/string-bits", "AddString(%q): bit %d differs from the MSB-first bits of the string's bytes", msgs[i], k)
+			return
+		}
+	}
+	// sign msgs[i]; it must not verify for any other string of the alphabet
+	sf := pasta.NewPallasScalarField()
+	sk, err := mina.NewPrivateKey(conv.FromBig(sf, libcurve.Pallas().Ref.Q, big.NewInt(7)))
+	if err != nil {
+		panic(engine.HarnessError{Msg: err.Error()})
+	}
+	scheme, err := mina.NewScheme(minaModes[0].nid, sk)
+	if err != nil {
+		panic(engine.HarnessError{Msg: err.Error()})
+	}
+	signer, _ := scheme.Signer(sk)
+	verifier, _ := scheme.Verifier()
+	sg, err := signer.Sign(m)
+	if err != nil {
+		x.Failf("mina/sign", "Sign(%q) failed: %v", msgs[i], err)
+		return
+	}
+	for j, o := range msgs {
+		mo := new(mina.ROInput).Init()
+		mo.AddString(o)
+		err := verifier.Verify(sg, sk.PublicKey(), mo)
+		if (err == nil) != (i == j) {
+			x.Failf("mina/message-confusion", "a signature on %q: Verify for %q returned %v", msgs[i], o, err)
+		}
+	}
+	x.Observe(i, len(got))
+}
+
 func minaBody(tal *tally) func(*engine.X) {
 	ad := libcurve.Pallas()
 	C := ad.Ref
@@ -270,4 +325,5 @@ func pastaXOnlyDecode(C *curve.FpCurve) func(b []byte, q *big.Int) (curve.FpPoin
 func runMina() {
 	t := newTally()
 	t.note(engine.Explore(minaBody(t), engine.Opts{Name: "mina", Budget: budget(3, 25)}))
+	engine.Explore(minaEncodingBody, engine.Opts{Name: "mina/message-encoding", Budget: budget(1, 5)})
 }
